@@ -89,6 +89,7 @@ const ldb_comparator_t *lcdb_comparator(int type);
 struct Violation { string prop, cls, detail; };
 struct RunOut {
   std::vector<Violation> viol;
+  std::vector<Violation> known;          // violations matching an open known finding (do not stop the run)
   std::map<string, uint64_t> probes;     // reach probes (counts)
   std::map<string, uint64_t> counts;     // evaluation counters (comparisons, images, ...)
   uint64_t event_hash = 0;
@@ -96,6 +97,9 @@ struct RunOut {
   string note;
 };
 extern RunOut *g_out;                    // current run
+// open known findings handed to the worker: ("<prop>.<class>", detail regex).  A violation that matches is recorded
+// in RunOut::known and does not make failed() true, so the rest of the run is still checked.
+extern std::vector<std::pair<string, string>> g_known;
 void violation(const char *prop, const char *cls, const char *fmt, ...) __attribute__((format(printf, 3, 4)));
 inline bool failed() { return !g_out->viol.empty(); }
 inline void probe(const char *name, uint64_t n = 1) { g_out->probes[name] += n; }
